@@ -258,6 +258,8 @@ def judge(sp, cfg, res, want=None):
                 where = "%s (T=%d)" % (case.path(), ex["T"])
                 add("C15", "calls_mismatch", "%s: calls per thread %s, effective options %s give %s" % (where, r["calls"], ex["eff"], exp_calls))
                 add("C03", "calls_mismatch_e2e", "%s: calls per thread %s, options give %s" % (where, r["calls"], exp_calls))
+                if any(k in ex["eff"] for k in ("xt", "mt", "sk")) and it.action == "bench":
+                    add("C04", "rounds_e2e", "%s: %s calls per thread, the documented time rule with the effective options %s gives %s" % (where, r["calls"], ex["eff"], exp_calls))
 
     # ---- table cells (C20 / C05 / C15 / C18 slice) ---------------------------------------
     if it.action == "bench" and it.tsc:
